@@ -73,7 +73,9 @@ namespace xsimd
             auto test = x > constants::oneotwoeps<batch_type>();
             batch_type z = select(test, self, x + sqrt(x + x + x * x));
             batch_type l1pz = log1p(z);
-            return select(test, l1pz + constants::log_2<batch_type>(), l1pz);
+            batch_type r = select(test, l1pz + constants::log_2<batch_type>(), l1pz);
+            // below the domain [1, inf): for self <= -1 the radicand is positive again and no NaN arises by itself
+            return select(self < batch_type(1.), constants::nan<batch_type>(), r);
         }
         template <class A, class T>
         XSIMD_INLINE batch<std::complex<T>, A> acosh(const batch<std::complex<T>, A>& z, requires_arch<generic>) noexcept
